@@ -9,8 +9,10 @@ import time
 from .common import VERIF_ROOT, jsonable, seed, tier
 
 KNOWN_FILE = os.path.join(VERIF_ROOT, "known_findings.json")
-EVIDENCE_DIR = os.path.join(VERIF_ROOT, "evidence")
-REPLAY_DIR = os.path.join(VERIF_ROOT, "replays")
+# the two overrides exist for calibration runs against scratch copies (they keep such runs from
+# overwriting the evidence of the real tree); registered commands never set them
+EVIDENCE_DIR = os.environ.get("HSVERIF_EVIDENCE_DIR") or os.path.join(VERIF_ROOT, "evidence")
+REPLAY_DIR = os.environ.get("HSVERIF_REPLAY_DIR") or os.path.join(VERIF_ROOT, "replays")
 
 
 def load_known(prop):
